@@ -11,14 +11,20 @@
       (principal-variation-first, killers, capture ordering are permutations);
     * `null_move_dead_in_iterations_1_to_3`: the null-move test needs remaining depth ≥ 3, which a
       root child of iterations 1–3 never has.
-  NOT proved: `ab_spec` — that the engine-shaped model search (PVS with zero-window re-search,
-  mate-distance clamp, stateful bookkeeping) satisfies `Bnd` w.r.t. `Spec.negamax`.  That clause is
-  decided on every run: the REAL search is run to the end of iteration 3 under the virtual clock,
-  with and without repetition histories, and every final score and selected move is compared with
-  the proved oracle; the model replays the same run from the engine's order log and must agree
-  exactly (node counts, info lines, sent boards).
+    * `engine_search_is_minimax` (= `ab_spec`): the ENGINE-SHAPED search of the model — fail-hard
+      quiescence, mate-distance clamp, first move with the full window, the others with a zero
+      window and a re-search, PV / killer / current-line bookkeeping threaded through the state, the
+      repetition table added and removed around every node — satisfies `Bnd` w.r.t. `Spec.negamax`,
+      for every game with a bounded evaluation whose minimax value ignores the ordering tag, every
+      ordering oracle that permutes, every window α < β, every repetition table, remaining depth < 3
+      (no null move), a clock that does not expire and a call that finishes normally; and returns
+      exactly the minimax value when that value is inside the window (`engine_search_exact`).
+  The model<->code tie is checked on every run: the REAL search is run to the end of iteration 3
+  under the virtual clock, with and without repetition histories; every final score and selected
+  move is compared with the proved oracle, and the model replays the same run from the engine's
+  order log and must agree exactly (node counts, info lines, sent boards).
 -/
-import Walleye.Proofs.Negamax
+import Walleye.Proofs.AbSpec
 namespace Walleye
 open Spec
 
@@ -42,6 +48,21 @@ theorem ordering_never_changes_the_value (f : P → Int) (l l' : List P) (h : l.
 
 theorem null_move_dead_in_iterations_1_to_3 (allowNull : Bool) (depth : Nat) (inCheck : Bool) (hd : depth < 3) :
     ¬ (allowNull = true ∧ depth ≥ Gen.nullMinDepth ∧ ¬ inCheck = true) := null_dead_below_3 allowNull depth inCheck hd
+
+/-- the engine-shaped search is minimax (see the header) -/
+theorem engine_search_is_minimax {O : Type} (ord : Oracle P O) (E : Nat) (hg : GameOK g E) (hord : OrdPerm ord)
+    (fuel : Nat) (p : P) (depth ply : Nat) (a b : Int) (n : Bool) (t : DrawTable)
+    (hd : depth < 3) (hab : a < b) (hE : (E : Int) + ply + fuel < Gen.mateScore) :
+    Triple (St t) (alphaBeta g ord fuel p depth ply a b n)
+      (fun v s' => Bnd (negamax g fuel depth ply t p) a b v ∧ St t s') :=
+  ab_spec g ord E hg hord fuel p depth ply a b n t hd hab hE
+
+theorem engine_search_exact {O : Type} (ord : Oracle P O) (E : Nat) (hg : GameOK g E) (hord : OrdPerm ord)
+    (fuel : Nat) (p : P) (depth ply : Nat) (a b : Int) (n : Bool) (t : DrawTable) (s s' : SS P O) (v : Int)
+    (hd : depth < 3) (hE : (E : Int) + ply + fuel < Gen.mateScore) (hst : St t s)
+    (h1 : a < negamax g fuel depth ply t p) (h2 : negamax g fuel depth ply t p < b)
+    (he : alphaBeta g ord fuel p depth ply a b n s = .ok v s') : v = negamax g fuel depth ply t p :=
+  ab_exact g ord E hg hord fuel p depth ply a b n t s s' v hd hE hst h1 h2 he
 
 /-- non-vacuity: a two-move game where the second move is better; any window containing the value -/
 example : maxNeg (fun (x : Nat) => (x : Int)) [3, 1] (-5) = -1 := by decide
